@@ -26,6 +26,34 @@ TEXT_MACROS = ('text', 'textrm', 'textit', 'textbf', 'textsc', 'textsl', 'textsf
                'textmd', 'textup', 'mbox')
 
 
+def _state_from_delta(fn, delta_method):
+    """None if some structural path builds get_updated_parsing_state_from_delta(<the parsing_state
+    parameter>, self.<delta_method>(...), ...) and no path updates another state; else the reason"""
+    params = [a.arg for a in fn.args.args]
+    try:
+        cases = symex.sink_cases(fn, lambda c: call_name(c) == 'get_updated_parsing_state_from_delta')
+    except symex.TooManyPaths as e:
+        return str(e)
+    if not cases:
+        return 'get_updated_parsing_state_from_delta is never called'
+    seen = False
+    for cs in cases:
+        if len(cs.sub.args) < 2:
+            return 'update called with %d arguments' % len(cs.sub.args)
+        P, D = cs.sub.args[0], cs.sub.args[1]
+        d_ = cs.env.get('#def', {}).get(D.id) if isinstance(D, ast.Name) else None
+        if isinstance(d_, ast.AST):
+            D = d_
+        if isinstance(D, ast.Call) and call_name(D) == delta_method:
+            seen = True
+            if not (isinstance(P, ast.Name) and P.id in params and 'parsing_state' in P.id):
+                return 'the state updated by %s is %s, not the parsing state of the call' % (
+                    delta_method, short(P))
+    if not seen:
+        return 'no update uses self.%s()' % delta_method
+    return None
+
+
 def _loop_var_over(f, name, attr):
     """is `name` bound by a for loop of f iterating over (an enumerate of) self.<attr>"""
     for l in iter_own(f):
@@ -388,28 +416,52 @@ def run(ctx):
                'the arguments parser does not parse each argument in (call state + that argument\'s '
                'delta): %s' % why, construct='LatexArgumentsParser.parse: per-argument state')
     cm = repo.mod(CALLP)
-    mb = cm.methods('LatexEnvironmentCallParser').get('make_body_parser_and_parsing_state')
-    t = unparse(mb) if mb is not None else ''
-    ok = 'get_updated_parsing_state_from_delta(parsing_state, self.make_body_parsing_state_delta(' in t
-    ctx.decide('R10h', ok, cm, mb or cm.cls('LatexEnvironmentCallParser'),
-               'body state = call state + the spec\'s body delta',
-               'the environment body state is not the call state updated by the body delta',
-               construct='make_body_parser_and_parsing_state')
-    pca = cm.methods('_LatexCallableParserBase').get('parse_call_arguments')
-    t = unparse(pca) if pca is not None else ''
-    ok = 'get_updated_parsing_state_from_delta(parsing_state, self.make_arguments_parsing_state_delta(' in t
-    ctx.decide('R10h', ok, cm, pca or cm.cls('_LatexCallableParserBase'),
-               'arguments state = call state + the spec\'s arguments delta',
-               'parse_call_arguments does not derive the arguments state from the call state',
-               construct='parse_call_arguments')
+    for cls_, mname, dname, what in (
+            ('LatexEnvironmentCallParser', 'make_body_parser_and_parsing_state',
+             'make_body_parsing_state_delta', 'body'),
+            ('_LatexCallableParserBase', 'parse_call_arguments',
+             'make_arguments_parsing_state_delta', 'arguments')):
+        fn_ = cm.methods(cls_).get(mname)
+        if fn_ is None:
+            raise AnalysisError('anchor vanished: %s.%s' % (cls_, mname))
+        why = _state_from_delta(fn_, dname)
+        ctx.decide('R10h', why is None, cm, fn_,
+                   '%s state = call state + the spec\'s %s delta' % (what, what),
+                   '%s: %s: the %s is parsed in a state that is not the call state updated by the '
+                   'spec\'s %s delta' % (mname, why, what, what), construct=mname)
     sp = repo.mod('pylatexenc.macrospec._specclasses')
     ci = sp.methods('CallableSpec').get('__init__')
-    t = unparse(ci) if ci is not None else ''
-    ok = 'if self.is_math_mode:' in t and 'body_parsing_state_delta = ParsingStateDeltaEnterMathMode()' in t
-    ctx.decide('R10h', ok, sp, ci or sp.cls('CallableSpec'),
-               'is_math_mode environments get an EnterMathMode body delta',
-               'is_math_mode=True no longer gives the body an EnterMathMode delta',
-               construct='CallableSpec.__init__: is_math_mode')
+    if ci is None:
+        raise AnalysisError('anchor vanished: CallableSpec.__init__')
+    # every path on which is_math_mode is truthy stores an EnterMathMode delta (or raises)
+    why = None
+    try:
+        w_ = symex.Walker(want_exits=True, track_attrs=('self.body_parsing_state_delta', 'self.is_math_mode'))
+        ends = [c for c in w_.run_block(ci.body) if c.kind in ('end', 'return')]
+    except symex.TooManyPaths as e:
+        ends, why = [], str(e)
+    n_mm = 0
+    for cs in ends:
+        mm = None
+        for t_, pol in cs.conds:
+            for a, ap in symex._atoms(t_, pol):
+                d_ = cs.env.get('#def', {}).get(unparse(a))
+                txt = unparse(d_) if isinstance(d_, ast.AST) else unparse(a)
+                if "'is_math_mode'" in txt or txt.endswith('is_math_mode'):
+                    mm = ap
+        if mm:
+            n_mm += 1
+            v = cs.env.get('self.body_parsing_state_delta')
+            d_ = cs.env.get('#def', {}).get(v.id) if isinstance(v, ast.Name) else None
+            if isinstance(d_, ast.AST):
+                v = d_
+            if not (isinstance(v, ast.Call) and call_name(v) == 'ParsingStateDeltaEnterMathMode'):
+                why = 'with is_math_mode set the stored body delta is %s' % (short(v) if v is not None else 'not set')
+    if why is None and n_mm == 0:
+        why = 'no path tests is_math_mode'
+    ctx.decide('R10h', why is None, sp, ci, 'is_math_mode environments get an EnterMathMode body delta',
+               'CallableSpec.__init__: %s: the body of a math environment declared with '
+               'is_math_mode=True is parsed in text mode' % why, construct='CallableSpec.__init__: is_math_mode')
     ctx.assume('user-supplied child-state factories and custom deltas are outside the rule')
     return 'other', (
         'Decides the places where the mode of a node is determined: the math parser\'s contents '
